@@ -42,6 +42,10 @@ pub fn expr(e: &TypedExpr) -> String {
         TypedExprKind::Bool(b) => format!("(EBool {})", b),
         TypedExprKind::String(s) => format!("(EStr {})", coq_string(s)),
         TypedExprKind::Null => "ENull".to_string(),
+        // the VM intrinsics (manual memory, type) are outside the evaluator's fragment: a program that
+        // mentions one is discarded by the translation validation (levels are still compared with each other)
+        TypedExprKind::Identifier(x) if matches!(x.as_str(), "alloc" | "free" | "load" | "store" | "type" | "__tostring") =>
+            format!("(EOther {})", coq_string(x)),
         TypedExprKind::Identifier(x) => format!("(EVar {})", coq_string(x)),
         TypedExprKind::Binary { left, op, right } => format!("(EBin {} {} {})", binop(op), expr(left), expr(right)),
         TypedExprKind::Unary { op, operand } => format!("(EUn {} {})", unop(op), expr(operand)),
